@@ -161,10 +161,7 @@ theorem only_identifiers_echoed {info env req c a r} (h : build info env req c a
     intro f hf; unfold draftTail at hf; split at hf <;> simp at hf; exact hf
   have cookies : ∀ alg f, f ∈ freshCookies alg req → ∃ n, f = .cookie n := by
     intro alg f hf
-    simp only [freshCookies, List.mem_filterMap] at hf
-    obtain ⟨x, _, hx⟩ := hf
-    cases x <;> simp [cookieFor] at hx
-    all_goals (exact ⟨_, hx.2.symm⟩)
+    exact ⟨_, mem_freshCookies hf⟩
   apply key
   cases a with
   | ignore => simp [build] at h
